@@ -459,8 +459,14 @@ def check_case(case):
   try:
     s1 = gin.config_str(width, indent)
     s_default = gin.config_str()
+    # the text is a function of the bindings only: not of whatever config scope happens to be
+    # active where config_str() is called
+    with gin.config_scope('zs/zt'):
+      s_scoped = gin.config_str(width, indent)
   except Exception as e:  # pylint: disable=broad-except
     raise Violation('config_str-raised', f'{type(e).__name__}: {e}')
+  require(s_scoped == s1, 'config_str-depends-on-active-scope',
+          lambda: f'--- at top level:\n{s1}\n--- inside config_scope(zs/zt):\n{s_scoped}')
   before = {}
   for kind, key, v, _ in items:
     if kind == 'bind' and representable(v):
